@@ -1,12 +1,153 @@
-/- Drv/C11.lean — driver handler for property C11 (line protocol; core-only imports). -/
+/- Drv/C11.lean — driver handler for property C11 (adjoints = semiring derivatives). -/
 import FunsorVerif.Core.Sexp
 import FunsorVerif.Core.XR
+import FunsorVerif.Core.Semiring
+import FunsorVerif.Model.C11
 namespace FV.Drv.C11
-open FV
+open FV FV.C11
 
-/-- `args` are the top-level S-expressions following the property tag on the request line. -/
+/-- float64 `finfo.max` -/
+def maxFloat : Rat := (2 : Rat) ^ 1024 - (2 : Rat) ^ 971
+
+/-- `ops.safediv` on numpy: `x * clip(reciprocal(y), None, finfo.max)` -/
+def safediv (x y : XR) : XR :=
+  let r : XR := match y with
+    | .fin q => if q = 0 then .fin maxFloat else .fin (1 / q)
+    | .pinf => 0
+    | .ninf => 0
+    | .nan => .nan
+  XR.mul x r
+
+def xops : Ops XR := ⟨XR.add, XR.mul, 0, 1, safediv⟩
+
+structure LeafD where
+  id : Nat
+  axes : List (Nat × Nat)
+  data : Array XR
+
+def ravel (axes : List (Nat × Nat)) (env : Env) : Nat :=
+  axes.foldl (fun acc p => acc * p.2 + env p.1) 0
+
+def mkLeaves (ls : List LeafD) : Leaves XR where
+  names := fun id => match ls.find? (·.id == id) with
+    | some l => l.axes.map (·.1)
+    | none => []
+  T := fun id env => match ls.find? (·.id == id) with
+    | some l => (match l.data[ravel l.axes env]? with
+        | some x => x
+        | none => XR.nan)          -- out of range: not a value
+    | none => XR.nan
+
+def parsePair (s : Sexp) : Option (Nat × Nat) :=
+  match s with
+  | .list [a, b] => do some (← a.asNat?, ← b.asNat?)
+  | _ => none
+
+def parseLeaf (s : Sexp) : Option LeafD :=
+  match s with
+  | .list [id, axes, data] => do
+      let id ← id.asNat?
+      let axes ← (← axes.asList?).mapM parsePair
+      let data ← (← data.asList?).mapM XR.ofSexp?
+      some ⟨id, axes, data.toArray⟩
+  | _ => none
+
+def parseIx (s : Sexp) : Option Ix :=
+  match s with
+  | .list [.atom "var", v] => do some (.var (← v.asNat?))
+  | .list [.atom "aff", v, a, b] => do some (.aff (← v.asNat?) (← a.asNat?) (← b.asNat?))
+  | .list [.atom "const", c] => do some (.const (← c.asNat?))
+  | .list [.atom "tab", v, t] => do some (.tab (← v.asNat?) (← t.asNats?))
+  | _ => none
+
+def parseSub (s : Sexp) : Option (Nat × Ix) :=
+  match s with
+  | .list [k, ix] => do some (← k.asNat?, ← parseIx ix)
+  | _ => none
+
+/-- fuel-bounded recursive descent (the S-expression is finite; fuel = its size bound) -/
+def parseExpr : Nat → Sexp → Option Expr
+  | 0, _ => none
+  | fuel + 1, s =>
+    match s with
+    | .list [.atom "acc", id, σ] => do some (.acc (← id.asNat?) (← (← σ.asList?).mapM parseSub))
+    | .list [.atom "add", a, b] => do some (.add (← parseExpr fuel a) (← parseExpr fuel b))
+    | .list [.atom "mul", a, b] => do some (.mul (← parseExpr fuel a) (← parseExpr fuel b))
+    | .list [.atom "sum", v, e] => do some (.sum (← v.asNat?) (← parseExpr fuel e))
+    | .list [.atom "prod", v, e] => do some (.prod (← v.asNat?) (← parseExpr fuel e))
+    | .list [.atom "cat", v, ps] => do
+        some (.cat (← v.asNat?) (← (← ps.asList?).mapM parsePair))
+    | _ => none
+
+/-- static well-formedness: everything funsor would reject at construction time -/
+def wfExpr (sz : Nat → Nat) (ls : List LeafD) : Expr → Bool
+  | .acc id σ =>
+    match ls.find? (·.id == id) with
+    | none => false
+    | some l =>
+      l.data.size == l.axes.foldl (fun acc p => acc * p.2) 1 &&
+      σ.all (fun p => match l.axes.lookup p.1 with
+        | some n => p.2.wf sz n
+        | none => false) &&
+      l.axes.all (fun p => σ.any (fun q => q.1 == p.1) || sz p.1 == p.2)
+  | .add a b => wfExpr sz ls a && wfExpr sz ls b
+  | .mul a b => wfExpr sz ls a && wfExpr sz ls b
+  | .sum _ e => wfExpr sz ls e
+  | .prod _ e => wfExpr sz ls e
+  | .cat v parts =>
+    parts.all (fun p => match ls.find? (·.id == p.1) with
+      | none => false
+      | some l => l.axes.lookup v == some p.2 &&
+          l.data.size == l.axes.foldl (fun acc q => acc * q.2) 1 &&
+          l.axes.all (fun q => q.1 == v || sz q.1 == q.2)) &&
+    (parts.foldl (fun acc p => acc + p.2) 0) == sz v
+
+/-- all assignments of the listed (variable, size) pairs, row-major, on top of `base` -/
+def points : List (Nat × Nat) → Env → List Env
+  | [], base => [base]
+  | (v, n) :: rest, base => (List.range n).flatMap (fun k => points rest (upd base v k))
+
+def maskVars (n : Nat) (m : Mask) : List Nat := (List.range n).filter m
+
+def xs (l : List XR) : Sexp := Sexp.list (l.map XR.toSexp)
+
+def run (szl : List Nat) (ls : List LeafD) (e : Expr) : String :=
+  let n := szl.length
+  let sz : Nat → Nat := fun v => match szl[v]? with
+    | some s => s
+    | none => 1
+  if !wfExpr sz ls e then "err ill-formed" else
+  let L := mkLeaves ls
+  let o := xops
+  let F := fvMask L e
+  let Fv := maskVars n F
+  let env0 : Env := fun _ => 0
+  let fwd := (points (Fv.map (fun v => (v, sz v))) env0).map (eval o sz L e)
+  let G := adjoint o sz L n e
+  let leaves := ls.map fun l =>
+    let g := G l.id
+    let gv := maskVars n g.mask
+    let lsz : Nat → Nat := fun v => match l.axes.lookup v with
+      | some s => s
+      | none => sz v
+    let gtab := (points (gv.map (fun v => (v, lsz v))) env0).map g.f
+    let pts := points l.axes env0
+    let fs := pts.map (marginal o sz L n F l.id g)
+    let dv := pts.map (fun p => sumM o sz n F (deriv o sz L l.id p e) env0)
+    Sexp.list [Sexp.atom "leaf", Sexp.ofNat l.id, Sexp.ofNats gv, xs gtab, xs fs, xs dv]
+  "ok " ++ toString (Sexp.list [Sexp.ofNats Fv, xs fwd, Sexp.list leaves])
+
+/--
+  C11 adjoint (sz…) ((id ((axis size)…) (data…))…) expr
+     → ok ((F…) (forward table over F) ((leaf id (adjoint inputs…) (adjoint table) (marginal onto the
+           leaf's axes) (spec: derivative table))…))
+-/
 def handle (args : List Sexp) : String :=
   match args with
-  | _ => "err unimplemented"
+  | [Sexp.atom "adjoint", szs, leaves, ex] =>
+    match szs.asNats?, (leaves.asList?).bind (·.mapM parseLeaf), parseExpr 64 ex with
+    | some szl, some ls, some e => run szl ls e
+    | _, _, _ => "err bad-args"
+  | _ => "err bad-request"
 
 end FV.Drv.C11
